@@ -1549,8 +1549,42 @@ class Interp:
         from .symcoll import SymMap
         g = n.generators[0]
         it = self.eval(g.iter, fr)
-        if not isinstance(it, SymSeq) or len(n.generators) != 1 or g.ifs:
+        if not isinstance(it, SymSeq) or len(n.generators) != 1:
             return None
+        if g.ifs:
+            # filter: the result is a sub-sequence of unknown length 0..n; `selected(j)` is the index of its j-th element
+            # and every selected element satisfies the filter (assumed when the element is read)
+            if kind != "list":
+                return None
+            self._fresh_n += 1
+            tag = self._fresh_n
+            m = self.fresh("int", f"count!{tag}")
+            self.assume(z3.And(m.e >= 0, m.e <= it.length))
+            sel = z3.Function(f"selected!{tag}", z3.IntSort(), z3.IntSort())
+
+            def elem(j, sel=sel, m=m):
+                self.assume(z3.Implies(z3.And(j >= 0, j < m.e), z3.And(sel(j) >= 0, sel(j) < it.length)))
+                f2 = Frame(fr.fi, fr.module, fr)
+                f2.self_cls = fr.self_cls
+                self.assign(g.target, it.elem(sel(j)), f2)
+                for c in g.ifs:
+                    self.assume(self.truth(self.eval(c, f2)) if not isinstance(self.truth(self.eval(c, f2)), bool) else True)
+                return self.eval(n.elt, f2)
+            out = SymSeq(f"filtered!{tag}", m.e, elem)
+            out.filter_of = it
+            out.filter_ifs = g.ifs
+
+            def cond_at(x, g=g):
+                """truth of the filter for a given element value (for contracts that must know WHAT is counted)"""
+                f2 = Frame(fr.fi, fr.module, fr)
+                f2.self_cls = fr.self_cls
+                self.assign(g.target, x, f2)
+                ts = [self.truth(self.eval(c, f2)) for c in g.ifs]
+                ts = [z3.BoolVal(t) if isinstance(t, bool) else t for t in ts]
+                return z3.And(ts) if len(ts) > 1 else ts[0]
+            out.filter_cond = cond_at
+            self.ghost.setdefault("filtered", []).append(out)
+            return out
 
         def at(expr):
             def f(i):
